@@ -41,7 +41,7 @@ def gen_rar_cases(tier, seed, n_direct, n_e2e):
                  n=n0 + steps_cap * sel_x + slack_x, nt=nt0 + (steps_cap if rng.integers(2) else steps_cap + 1) * sel_t + slack_t,
                  cand_t=sel_t + int(rng.integers(0, 4)), cand_x=sel_x + int(rng.integers(0, 5)),
                  mode="direct" if k < n_direct else "e2e", draws=int(rng.integers(0, 4)),
-                 system=bool(k % 5 == 4), legs=2 if k % 7 in (1, 3, 5) else 1, seed=seed * 100000 + k, cost=2.0)
+                 system=bool(k % 5 == 4 or k % 8 == 0), legs=2 if k % 7 in (1, 3, 5) else 1, with_validation=bool(k >= n_direct and (k - n_direct) % 2 == 1), seed=seed * 100000 + k, cost=2.0)
         # a store smaller than one set of additions can never be refined: not generated
         c["n"] = max(c["n"], sel_x)
         c["nt"] = max(c["nt"], sel_t)
@@ -197,8 +197,21 @@ def drive(case):
     data = B["data"]
     for leg in range(legs):
         before = state_of(data, pk)
+        kw = {}
+        if case.get("with_validation"):
+            # refinement must not depend on the other options of solve(): a validation module (never stopping) and, for
+            # every other such case, the default printing path
+            pk_ = B["pk"]
+            vd = {"ode": dict(kind="ode", key=5, nt=4, bt=2, tmin=0.0, tmax=1.5),
+                  "statio": dict(kind="statio", key=5, n=4, b=2, dim=B["d"], min_pts=B["mins"], max_pts=B["maxs"], nb=None, bb=None),
+                  "nonstatio": dict(kind="nonstatio", key=5, n=4, b=2, dim=B["d"], min_pts=B["mins"], max_pts=B["maxs"], nb=None,
+                                    bb=None, nt=4, bt=2, tmin=0.0, tmax=1.5, cartesian=True)}[pk_]
+            from jinns.validation import ValidationLoss
+            kw["validation"] = ValidationLoss(loss=B["loss"], validation_data=gens.make_generator(vd), call_every=2,
+                                              early_stopping=False, patience=3)
+        verb = dict(print_loss_every=5) if case.get("with_validation") and case["seed"] % 2 else dict(verbose=False)
         out = jinns.solve(n_iter=N_ITERS, init_params=B["params"], data=data, loss=B["loss"],
-                          optimizer=optax.sgd(0.0), verbose=False)
+                          optimizer=optax.sgd(0.0), **verb, **kw)
         data = out[3]
         ev = drain_sink()
         hist.append(dict(i=None, leg=leg, kind="solve", before=before, after=state_of(data, pk), events=ev))
